@@ -127,7 +127,13 @@ pub fn check(case: &Case) -> Verdict {
         Err(OracleErr::Invalid(_)) => return Verdict::Reject("oracle cannot compile the pattern text"),
     };
     let input = &case.input.0;
+    if gen::starts_with_bom(input) {
+        return Verdict::Reject("input starts with a byte-order mark (transcoding is C17's subject)");
+    }
     let term = case.pat.term;
+    // an inline (?R) without --crlf: `^`/`$` then look at a CR and at what
+    // follows it, i.e. at the line's own terminator in a whole-buffer search
+    let inline_crlf = term != Term::Crlf && !case.pat.fixed && case.pat.patterns.iter().any(|p| gen::has_inline_crlf_flag(p));
     let lines = model::split_lines(input, term.byte());
     let verdicts: Vec<LineVerdict> =
         lines.iter().map(|l| orc.verdict(model::content(input, l, term == Term::Crlf))).collect();
@@ -188,6 +194,11 @@ pub fn check(case: &Case) -> Verdict {
                         ))
                         .fact(format!("path:{}", if passthru { "slow" } else { "fast-or-selected" }))
                         .fact(format!("term:{term:?}"));
+                        if inline_crlf && content.last() == Some(&b'\r') && !passthru {
+                            f = f.fact("inline-crlf-flag-without-crlf-mode").fact("line-content-ends-with-CR").fact("fast-path-only");
+                            known_shape_fail.get_or_insert(f);
+                            continue;
+                        }
                         if unicode_word_look && i > 0 && content.first().map_or(false, |b| (0x80..=0xBF).contains(b)) && !passthru {
                             // explained by the regex engine's look-behind over
                             // stray continuation bytes (see known_findings.json)
@@ -220,6 +231,9 @@ pub fn check(case: &Case) -> Verdict {
                 if unicode_word_look && i > 0 && content.first().map_or(false, |b| (0x80..=0xBF).contains(b)) {
                     continue; // same known shape; reported through known_fail
                 }
+                if inline_crlf && content.last() == Some(&b'\r') {
+                    continue; // likewise
+                }
                 return Verdict::Fail(Fail::new(format!(
                     "runs disagree on line {}: {} -> {:?} vs {} -> {:?}\n patterns={:?} pat={:?} invert={} input={:?}",
                     i + 1, w[0].0, w[0].1, w[1].0, w[1].1, case.pat.patterns, case.pat, case.invert, case.input
@@ -251,6 +265,8 @@ pub fn check(case: &Case) -> Verdict {
             .map(|i| {
                 let content = model::content(input, &lines[i], term == Term::Crlf);
                 if unicode_word_look && i > 0 && content.first().map_or(false, |b| (0x80..=0xBF).contains(b)) {
+                    None
+                } else if inline_crlf && content.last() == Some(&b'\r') {
                     None
                 } else {
                     expect[i]
